@@ -10,14 +10,14 @@ from harness.common import Stream, hexb
 from harness.props import C12
 
 PID = "C13"
-LEAN_MODULES = ["Astm.Proofs.C13", "Astm.State.C13"]
+LEAN_MODULES = ["Astm.Proofs.C13", "Astm.State.C13", "Astm.Surface.C13"]
 THEOREMS = [
     "Astm.C13.constraints_eq_contract", "Astm.C13.text_stored_iff_length_ok", "Astm.C13.text_stored_unchanged",
     "Astm.C13.not_used_stores_nothing", "Astm.C13.set_stored_iff_member", "Astm.C13.constant_stored_iff_equal",
     "Astm.C13.integer_stored_iff_int", "Astm.C13.check_digits_exact", "Astm.C13.datetime_stored_exact",
     "Astm.C13.date_stored_exact", "Astm.C13.stored_value_reads_back", "Astm.C13.integer_reads_back", "Astm.C13.record_reads_back", "Astm.C13.shipped_schemas_read_back", "Astm.C13.too_many_values_error", "Astm.C13.example_calendar",
     "Astm.C13.list_operation_all_or_nothing", "Astm.C13.list_operation_stores_checked_components",
-    "Astm.C13.anchored_code_keeps_no_other_state",
+    "Astm.C13.anchored_code_keeps_no_other_state", "Astm.C13.anchored_code_keeps_its_signatures",
 ]
 RULE = ("every scalar field instance and every sub-field of every schema (contract tables) with values inside, on the "
         "boundary of and outside its constraint (length n / n+1, codes and near-miss codes, constant and other text, "
